@@ -300,6 +300,17 @@ func (eval Evaluator) matchScaleThenEvaluateInPlace(level int, el0 *rlwe.Ciphert
 
 	r0, r1, _ := eval.matchScalesBinary(el0.Scale.Uint64(), el1.Scale.Uint64())
 
+	// If the receiver is the second operand, the latter is saved first: the
+	// receiver is overwritten with el0 * r0 before el1 is read.
+	if el1 == elOut.El() {
+		tmp := make([]ring.Poly, len(el1.Value))
+		for i := range tmp {
+			tmp[i] = eval.buffQ[i]
+			tmp[i].CopyLvl(level, el1.Value[i])
+		}
+		el1 = &rlwe.Element[ring.Poly]{Value: tmp, MetaData: el1.MetaData}
+	}
+
 	for i := range el0.Value {
 		eval.parameters.RingQ().AtLevel(level).MulScalar(el0.Value[i], r0, elOut.Value[i])
 	}
